@@ -323,6 +323,93 @@ class HistoryContainers(Spec):
                             and env.get("attachment_history") is not env.get("regularity_history")))]
 
 
+class EstimatorProbe(Spec):
+    """records what the estimator is handed (its own contract: MeanEstimator / ModeEstimator)"""
+    target = MEAN
+
+    def bind(self, it, args, kwargs):
+        return dict(args=args, kwargs=kwargs)
+
+    def havoc(self, cx, st):
+        cx.ghost.setdefault("estimator_calls", []).append((st["args"], st["kwargs"]))
+
+    def result(self, cx, st):
+        return cx.ghost["estimate"]
+
+
+class EstimatorProbeMode(EstimatorProbe):
+    target = MODE
+
+
+class EstimatorHandOff(Spec):
+    """McmcPersonalizeAlgorithm._get_individual_parameters, the statements between the loop and the construction of the result
+    (from `torch_values = ...` to `individual_parameters_torch = ...`): the estimator is called exactly once, with EVERY recorded
+    draw -- entry [k, i, c] of variable n is the k-th recorded draw of n for individual i, component c; entry [k, i] of the
+    attachments / regularities is the k-th recorded one for individual i -- nothing dropped, re-ordered or mixed across
+    individuals, and what the estimator returns is what is kept."""
+    target = "leaspy.algo.personalize.mcmc:McmcPersonalizeAlgorithm._get_individual_parameters"
+    fragment = (lambda t: t.startswith("torch_values ="), lambda t: t.startswith("individual_parameters_torch ="))
+
+    def configs(self):
+        return [dict(vars=v, kept=k, algo=a) for v in VARS for k in (1, 3) for a in ("mean", "mode")]
+
+    def setup(self, cx, cfg):
+        from leaspy.algo.personalize.mean_posterior import MeanPosteriorAlgorithm
+        from leaspy.algo.personalize.mode_posterior import ModePosteriorAlgorithm
+        from leaspy.constants import constants
+        import leaspy.algo.personalize.mcmc as mm
+        names = VARS[cfg["vars"]]
+        N = z3.Int("N")
+        K = cfg["kept"]
+        vh = {n: [STensor.sym(cx, f"draw{k}_{n}", (N, d), "real") for k in range(K)] for n, d in sorted(names.items())}
+        ah = [STensor.sym(cx, f"attach{k}", (N,), "real") for k in range(K)]
+        rh = [STensor.sym(cx, f"regul{k}", (N,), "real") for k in range(K)]
+        self_ = SymObj(MeanPosteriorAlgorithm if cfg["algo"] == "mean" else ModePosteriorAlgorithm, {})
+        est = {n: STensor.sym(cx, f"estimate_{n}", (N, d), "real") for n, d in sorted(names.items())}
+        cx.ghost["estimate"] = est
+        env = {"self": self_, "values_history": vh, "attachment_history": ah, "regularity_history": rh, "torch": torch, "constants": constants}
+        for k_, v_ in vars(mm).items():
+            env.setdefault(k_, v_)
+        return dict(env=env, vh=vh, ah=ah, rh=rh, N=N, K=K, names=names, est=est, self=self_)
+
+    def pre(self, cx, st):
+        return [("individuals", st["N"] >= 1)]
+
+    def post(self, cx, st, out):
+        calls = cx.ghost.get("estimator_calls", [])
+        res = [("the estimator is called exactly once", z3.BoolVal(len(calls) == 1))]
+        if len(calls) != 1:
+            return res
+        args, kwargs = calls[0]
+        names = ["self", "values", "attachments", "regularities"]
+        got = dict(zip(names, args))
+        got.update(kwargs)
+        vals, att, reg = got.get("values"), got.get("attachments"), got.get("regularities")
+        N, K = st["N"], st["K"]
+        i = z3.Int("i_ind")
+        dom = z3.And(0 <= i, i < N)
+        ok_shape = isinstance(vals, dict) and sorted(vals) == sorted(st["names"]) and all(isinstance(v, STensor) and v.ndim == 3 for v in vals.values()) \
+            and isinstance(att, STensor) and att.ndim == 2 and isinstance(reg, STensor) and reg.ndim == 2
+        res.append(("with one (draws, individuals, components) tensor per variable and (draws, individuals) losses", z3.BoolVal(bool(ok_shape))))
+        if not ok_shape:
+            return res
+        from pyvc.tensor import dim_z3 as dz
+        for n, d in st["names"].items():
+            v = vals[n]
+            res.append((f"{n}: every recorded draw is handed over (number of draws = {K}, individuals = N, components = {d})",
+                        z3.And(dz(v.shape_[0]) == K, dz(v.shape_[1]) == N, dz(v.shape_[2]) == d)))
+            res.append((f"{n}: entry [k, i, c] is the k-th recorded draw of individual i",
+                        z3.ForAll([i], z3.Implies(dom, z3.And(*[v.elem_real((z3.IntVal(k), i, z3.IntVal(c))) == st["vh"][n][k].elem_real((i, z3.IntVal(c)))
+                                                                 for k in range(K) for c in range(d)])))))
+        for label, t, h in (("attachments", att, st["ah"]), ("regularities", reg, st["rh"])):
+            res.append((f"{label}: every recorded draw is handed over", z3.And(dz(t.shape_[0]) == K, dz(t.shape_[1]) == N)))
+            res.append((f"{label}: entry [k, i] is the k-th recorded value of individual i",
+                        z3.ForAll([i], z3.Implies(dom, z3.And(*[t.elem_real((z3.IntVal(k), i)) == h[k].elem_real((i,)) for k in range(K)])))))
+        kept = out.value.get("individual_parameters_torch")
+        res.append(("what the estimator returns is what is kept", z3.BoolVal(kept is st["est"])))
+        return res
+
+
 # ------------------------------------------------------------------------------------------------------------------
 # scipy_minimize: the affine re-parametrisation and one subject's optimisation
 SM = "leaspy.algo.personalize.scipy_minimize"
@@ -488,6 +575,9 @@ def unscaled(scalings, slices, dims, x):
 
 
 import scipy.optimize as _sopt
+import numpy as np
+import torch
+from pyvc import tensor as T
 from pyvc.models import model as _model
 import types as _types
 
@@ -498,6 +588,11 @@ def m_minimize(it, fun, x0=None, args=(), jac=None, **kw):
     assumed here; it is the hypothesis of the non-worsening lemma)"""
     cx = it.cx
     x0t = x0 if isinstance(x0, STensor) else None
+    if x0t is None and isinstance(x0, (np.ndarray, torch.Tensor, list, tuple)):
+        try:
+            x0t = T.from_native(torch.as_tensor(np.asarray(x0, dtype=float)))
+        except Exception:
+            x0t = None
     if x0t is None or x0t.ndim != 1 or not isinstance(x0t.shape_[0], int):
         raise OutOfSubset("minimize with a start point of unknown dimension")
     k = len(cx.ghost.get("minimize", []))
@@ -663,9 +758,9 @@ class ScipyAlignment(Spec):
 import random as _random
 from contracts.c03 import m_shuffle  # noqa: F401  (model of random.shuffle)
 
-UNITS = [MeanEstimator(), ModeEstimator(), HistoryContainers(), KeptSampleLoop(), AffineSlices(), Unscaling(), Scaling(), ObjNoJac(), OnePatient(), ScipyAlignment()]
+UNITS = [MeanEstimator(), ModeEstimator(), HistoryContainers(), KeptSampleLoop(), EstimatorHandOff(), AffineSlices(), Unscaling(), Scaling(), ObjNoJac(), OnePatient(), ScipyAlignment()]
 from contracts.c16 import AddProbe
-CALLEES = [SampleProbe(), TemperatureProbe(), AddProbe()]
+CALLEES = [SampleProbe(), TemperatureProbe(), AddProbe(), EstimatorProbe(), EstimatorProbeMode()]
 ASSUMPTIONS = ["C17: real arithmetic for tensors (no NaN / rounding): the mean is the exact quotient, argmin returns the first minimal entry",
                "C17: torch.argmin modelled by its documented contract (index of the first minimum along the dimension)"]
 NOT_DECIDED = ["objective at the returned point vs the start point (scipy's guarantee), finiteness: bounded stand-in only"]
